@@ -21,7 +21,7 @@ RULE = ("Enumerated: every 8-bit pattern (quick) and every 16-bit pattern (thoro
         "needs escaping; distinct by case hash.")
 ASSUMPTIONS = ["write-only variables are excluded (they are reported as zero by design, C08)",
                "string values contain no CR and end with a NUL inside data_size (the statement's quantifier)",
-               "both runs start from identical variable bytes, so bytes behind a string's terminator are equal by construction"]
+               "a string variable's value is its text up to the terminator: bytes behind it (inside data_size) are not compared - no statement fixes what a WRITE leaves there"]
 TECHNIQUE = "exhaustive enumeration of 8/16-bit patterns + Hypothesis property-based testing; oracle = print/parse round trip through the real library (no model)"
 LEVEL_TEXT = ("Round-trip oracle on the real code: whatever READ prints must be accepted by WRITE and restore the bytes. 8- and 16-bit value spaces are covered "
               "exhaustively, 32-bit and buffer/string spaces by constructed boundaries plus random sampling.")
@@ -165,7 +165,7 @@ def run(case, W):
         return Result(violation=("write-rejected", "READ printed %r but WRITE of that text answered %r%s" % (payload, out2, (" after the lines %r" % (pre["lines"],)) if pre else "")), runs=2)
     after = t2.final_vars()
     for k, v in enumerate(c["vars"]):
-        if after[(0, k)] != init[(0, k)]:
+        if not ref.same_value(v, after[(0, k)], init[(0, k)]):
             return Result(violation=("value-changed", "variable %d (type %d size %d): %r printed as part of %r reads back as %r" % (k, v["type"], v["size"], init[(0, k)], payload, after[(0, k)])), runs=2)
     labels = set()
     nt = False
